@@ -38,7 +38,7 @@ pub fn run(tape: &[u8], ctx: &mut Ctx) {
 			if let Err(e) = apply_op(&mut w, &h, op, &mut accepted) {
 				ctx.violation(format!("C05/write-failed/{}", h.codec.name()), format!("schema {} {outline}: op #{i} {op:?} failed: {e} (value lengths {:?})", h.case.json, h.encoded.iter().map(|e| e.len()).collect::<Vec<_>>()));
 				// the writer's Drop would panic in debug mode on a failing flush: forget it
-				std::mem::forget(w);
+				discard(w);
 				return;
 			}
 		}
